@@ -200,6 +200,7 @@ def run(report, tier, seed):
     report.stub('Excel/Context/CellTranslator -> F(path, entry, safety); open -> in-memory file')
     s.run(report)
     concrete_history(report)
+    hashseed_sweep(report)
 
 
 HIST = r'''
@@ -254,6 +255,41 @@ def concrete_history(report):
     else:
         report.condition('history.real_chain', 'concrete', 'holds', time.time() - t0, 2,
                          'concrete differential (2 workbooks, whole-file and entry-point), not a solver verdict')
+
+
+HASHSEED = r'''
+import sys, os, hashlib, tempfile, shutil
+sys.path.insert(0, %(verif)r)
+from vlib import build
+from excel2pycl import Parser
+d = tempfile.mkdtemp(prefix='c09h_', dir=%(work)r)
+W = [('Main', {'A1': 5, 'A2': 7, 'A3': 'x', 'B1': 1, 'B2': 2, 'B3': 3, 'C1': '=SUMIFS(B1:B3,A1:A3,">1",B1:B3,"<3")', 'C2': '=COUNTIFS(A1:A3,">1",B1:B3,"<3",A1:A3,"<9")',
+              'C3': '=SUM(A1:A2)+MAX(B1:B3)', 'D1': '=IF(A1>3,"p","q")&Other!A1', 'D2': '=AVERAGEIFS(B1:B3,A1:A3,">1",B1:B3,">0")'}), ('Other', {'A1': 'z'})]
+p = build.write_xlsx(os.path.join(d, 'w.xlsx'), [(t, build.a1(c)) for t, c in W])
+print(hashlib.sha256(Parser().disable_safety_check().set_excel_file_path(p).get_translation().encode()).hexdigest())
+shutil.rmtree(d, ignore_errors=True)
+'''
+
+
+def hashseed_sweep(report):
+    """second sentence of C09 (byte-identical text across processes / hash seeds): NOT a solver verdict - a concrete sweep over PYTHONHASHSEED"""
+    from vlib import VERIF, WORK
+    t0 = time.time()
+    work = os.path.join(WORK, 'C09')
+    os.makedirs(work, exist_ok=True)
+    code = HASHSEED % dict(verif=VERIF, work=work)
+    digests = {}
+    for hs in ('0', '1', '2', '3', '17', '4242'):
+        r = subprocess.run([sys.executable, '-W', 'ignore', '-c', code], capture_output=True, text=True, timeout=300, env=dict(os.environ, PYTHONHASHSEED=hs))
+        if r.returncode != 0:
+            report.condition('hashseed.real_chain', 'concrete', 'inconclusive', time.time() - t0, 0, r.stderr[-300:])
+            return
+        digests[hs] = r.stdout.strip().splitlines()[-1]
+    if len(set(digests.values())) > 1:
+        report.condition('hashseed.real_chain', 'concrete', 'violated', time.time() - t0, len(digests), f'translation text differs between hash seeds: {digests}')
+        report.violation('hashseed.real_chain', 'same workbook translated under PYTHONHASHSEED ' + ', '.join(digests), f'sha256 of the text differs: {digests}')
+    else:
+        report.condition('hashseed.real_chain', 'concrete', 'holds', time.time() - t0, len(digests), 'same text under 6 hash seeds (concrete sweep, not a solver verdict)')
 
 
 def replay(rp):
